@@ -44,17 +44,17 @@ Env(a, b) == [RUN2D |-> a, RUN1D |-> b]
 EnvA == Env(NotGiven, NotGiven)
 EnvsFew == {EnvA, Env(Given(<<>>), Given(T_other)), Env(Given(T_other), NotGiven), Env(Given(T_run2d), Given(T_run1d))}
 EnvsAll == {Env(a, b) : a \in EnvVals, b \in EnvVals}
-Envs == IF Quick THEN {EnvA, Env(Given(<<>>), Given(T_other))} ELSE EnvsFew
+Envs == IF Quick THEN {EnvA, Env(Given(<<>>), Given(T_other))} ELSE {EnvA, Env(Given(<<>>), Given(T_other)), Env(Given(T_run2d), Given(T_run1d))}
 
 MethodsAll == {Pca, Hmf, <<"H", "M", "F">>, <<"H", "m", "f">>, <<"P", "c", "a">>, T_svd}
-Methods == IF Quick THEN {Pca, Hmf, <<"H", "M", "F">>} ELSE MethodsAll
+Methods == IF Quick THEN {Pca, <<"H", "M", "F">>} ELSE {Pca, Hmf, <<"H", "M", "F">>, T_svd}
 ObjectsAll == {Gal, Qso, Star, <<"G", "a", "l">>, <<"S", "T", "A", "R">>, <<"Q", "s", "o">>, T_lrg}
 
 MetaCase(f, exists, env0, note) == [fam |-> "meta", file |-> f, exists |-> exists, env0 |-> env0, note |-> note]
 
 (* ---- family "num" ---- *)
 NumAlphabet == {"0", "1", "7", ".", "-", "+", "e"}
-NumKeys == FloatKeys \cup IntKeys \cup HmfKeys
+NumKeys == IF Quick THEN {"snmax", "niter", "nonnegative", "epsilon"} ELSE FloatKeys \cup IntKeys \cup HmfKeys
 StrsUpTo(n) == UNION {[1 .. k -> NumAlphabet] : k \in 0 .. n}
 Root == [fam |-> "root"]
 NoExp == [out |-> "none"]
@@ -89,7 +89,7 @@ StepWrong ==
 (* ---- family "good" ---- *)
 TableVariants == {Table(1, "zfit", FALSE), Table(2, "zfit", FALSE), Table(3, "cz", TRUE), Table(2, "both", FALSE),
                   Table(3, "both", TRUE), NoTable}
-Run2dTexts == {T_run2d, <<"x">>}
+Run2dTexts == IF Quick THEN {<<"x">>} ELSE {T_run2d, <<"x">>}
 SeedGood == \E obj \in (IF Quick THEN {Gal, Star, <<"Q", "s", "o">>} ELSE ObjectsAll) : \E m \in MethodsAll :
                c' = Seed("good", [obj |-> obj, m |-> m])
 StepGood ==
@@ -177,7 +177,7 @@ Vocab == { <<"-", "d">>, <<"-", "d", "X">>, <<"--", "dump">>, <<"--", "dump", "=
            <<"-", "f">>, <<"-", "f", "Y">>, <<"--", "file">>, <<"--", "file", "=", "Y">>,
            <<"-", "F">>, <<"--", "flux">>, <<"-", "v">>, <<"--", "verbose">>, <<"-", "F", "v">>, <<"-", "v", "F", "d">>,
            <<"W">>, <<"-", "q">>, <<"--", "quiet">>, <<"-", "h">>, <<"--", "help">> }
-Homes == IF Quick THEN {"/h"} ELSE {"/h", "/nonexistent/x y"}
+Homes == IF Quick THEN {"/h"} ELSE {"/nonexistent/x y"}
 SeedMain == \E a \in Vocab \cup {<<>>} : \E h \in Homes : c' = Seed("main", [a |-> a, h |-> h])
 StepMain ==
   /\ IsSeed("main")
